@@ -27,6 +27,8 @@ type Alphabet struct {
 	MaxK            int
 	Donate          []Op // donation templates (AID filled per auction)
 	EntryIDMismatch bool // also offer allow-list entries whose own auction_id field names another auction
+	MalformedBids   bool // also offer bids whose kind is 0 (left out) or unknown
+	Reimport        int  // 1: offer a restart from the exported state; 2: also with the file's lists reversed
 	ModRejects      bool // include one invalid modification per rejection reason for every bid
 	MsgAddAllow     bool // include MsgAddAllowedBidder by every bidder at every state (C10)
 	Rejects         bool // include representative invalid ops while the auction is waiting or open
@@ -129,6 +131,14 @@ func (al *Alphabet) Menu(st *ref.State, bud Budget) []Op {
 				}
 			}
 		}
+		// malformed bids: a bid whose kind is left out (0) or unknown (7). A correct tree refuses them;
+		// if a tree accepts one, the bid is part of the history and the following blocks must cope with it.
+		if al.MalformedBids && open && len(al.Bidders) > 0 {
+			for _, bt := range []int{0, 7} {
+				denom, price := a.PayDenom, ratStr(a.StartPrice)
+				ops = append(ops, Op{Kind: "place", Signer: al.Bidders[0], AID: a.ID, BidType: bt, Price: price, Denom: denom, Amt: "2", Budget: bb, Tag: "malformed-kind"})
+			}
+		}
 		// modifications
 		if a.Type == ref.TypeBatch && (open || rej) {
 			for _, b := range st.Bids[a.ID] {
@@ -199,6 +209,12 @@ func (al *Alphabet) Menu(st *ref.State, bud Budget) []Op {
 			d.AID = a.ID
 			d.Budget = "donate"
 			ops = append(ops, d)
+		}
+	}
+	if al.Reimport > 0 && len(st.Auctions) > 0 {
+		ops = append(ops, Op{Kind: "reimport", Budget: "reimport"})
+		if al.Reimport > 1 {
+			ops = append(ops, Op{Kind: "reimport", Reversed: true, Budget: "reimport"})
 		}
 	}
 	for _, c := range al.Creates {
